@@ -14,7 +14,7 @@ Lemma bfacts_parts :
   /\ b_indexed F = mkG CastNone CGe (OConst 0)
   /\ b_wid_cmp F = CGe
   /\ (forall n, fires (b_list_len F) 0 0 n = false -> n <= 127)
-  /\ b_empty_panics F = false /\ b_empty_trie_err F = true
+  /\ b_empty_panics F = false /\ b_nul_err F = true /\ b_empty_trie_err F = true
   /\ existsb (fun g => rejects_all_neg g NumLeft) (b_hdr_left_g F) = true
   /\ existsb (fun g => rejects_all_neg g NumRight) (b_hdr_right_g F) = true
   /\ covers_strict (b_elem_left_g F) NumLeft = true /\ covers_strict (b_elem_right_g F) NumRight = true
@@ -22,7 +22,7 @@ Lemma bfacts_parts :
   /\ b_arg_left F = KRightId /\ b_arg_right F = KLeftId.
 Proof.
   pose proof HF as H. unfold bfacts_ok in H.
-  do 14 (apply andb_true_iff in H; let H' := fresh "HB" in destruct H as [H H']).
+  do 15 (apply andb_true_iff in H; let H' := fresh "HB" in destruct H as [H H']).
   repeat split; try assumption.
   - match goal with Hx : context [b_indexed F] |- _ => rename Hx into Hi end.
     destruct (b_indexed F) as [[|] [| | | | |] [z| |]]; try discriminate. destruct z; try discriminate. reflexivity.
@@ -54,7 +54,7 @@ Lemma write_elem_sound : forall c l r v, conn_wf c -> -32768 <= l <= 32767 -> -3
   | Panic => False
   end.
 Proof.
-  intros c l r v (Wl & Wr & Ws) Hl Hr. destruct bfacts_parts as (_ & _ & _ & _ & _ & _ & _ & _ & _ & Gl & Gr & Ie & _).
+  intros c l r v (Wl & Wr & Ws) Hl Hr. destruct bfacts_parts as (_ & _ & _ & _ & _ & _ & _ & _ & _ & _ & Gl & Gr & Ie & _).
   unfold write_elem.
   destruct (accepted (b_elem_left_g F) (c_nl c) (c_nr c) l && accepted (b_elem_right_g F) (c_nl c) (c_nr c) r) eqn:A; [|exact I].
   apply andb_true_iff in A as [Al Ar].
@@ -121,7 +121,7 @@ Lemma conn_read_sound : forall ls,
   | Panic => False
   end.
 Proof.
-  intros ls. destruct bfacts_parts as (_ & _ & _ & _ & _ & Ep & _ & Hl & Hr & _).
+  intros ls. destruct bfacts_parts as (_ & _ & _ & _ & _ & Ep & _ & _ & Hl & Hr & _).
   unfold conn_read. destruct (skip_blank ls) as [|hdr rest]; [rewrite Ep; exact I|].
   destruct (splitn (b_hdr_fields F) hdr) as [|a [|b [|x t]]]; try exact I.
   destruct (parse_i16 a) as [l|] eqn:Ea; [|exact I]. destruct (parse_i16 b) as [r|] eqn:Eb; [|exact I].
@@ -164,15 +164,16 @@ Qed.
 
 Definition entry_parsed_ok (e : entry) : Prop :=
   -32768 <= e_left e <= 32767 /\ -32768 <= e_right e <= 32767 /\ entry_limits_ok e = true
-  /\ forall w, In w (entry_refs e) -> 0 <= snd w.
+  /\ (forall w, In w (entry_refs e) -> 0 <= snd w) /\ e_surface_nul e = false.
 
 Lemma num16_range : forall f z, num16 f = Some z -> -32768 <= z <= 32767.
 Proof. intros [z'|] z H; cbn in H; [|discriminate]. destruct (in_ity I16 z') eqn:E; [|discriminate]. inversion H; subst. apply in_i16. exact E. Qed.
 
 Lemma parse_record_sound : forall r e, parse_record F r = Some e -> entry_parsed_ok e /\ e_splits_concat e = r_splits_concat r.
 Proof.
-  intros r e H. unfold parse_record in H.
-  destruct ((18 <=? r_ncols r) && r_strings_ok r && negb (r_surface_empty r) && r_syn_ok r); [|discriminate].
+  intros r e H. unfold parse_record in H. destruct bfacts_parts as (_ & _ & _ & _ & _ & _ & Nu & _).
+  destruct ((18 <=? r_ncols r) && r_strings_ok r && negb (r_surface_empty r) && r_syn_ok r && negb (r_surface_nul r && b_nul_err F)) eqn:C0; [|discriminate].
+  apply andb_true_iff in C0 as [_ C0]. rewrite Nu, andb_true_r in C0. apply negb_true_iff in C0.
   destruct (num16 (r_left r)) as [l|] eqn:El; [|discriminate]. destruct (num16 (r_right r)) as [rr|] eqn:Er; [|discriminate].
   destruct (num16 (r_cost r)) as [c|] eqn:Ec; [|discriminate]. destruct (r_mode r) as [m|]; [|discriminate].
   destruct (parse_wid_list F (r_split_a r)) as [sa|] eqn:Ea; [|discriminate].
@@ -182,17 +183,19 @@ Proof.
   pose proof (num16_range _ _ El) as Rl. pose proof (num16_range _ _ Er) as Rr. pose proof (num16_range _ _ Ec) as Rc.
   destruct (parse_wid_list_sound _ _ Ea) as [La Na]. destruct (parse_wid_list_sound _ _ Eb) as [Lb Nb].
   destruct (parse_wid_list_sound _ _ Ew) as [Lw Nw].
-  assert (forall d, entry_limits_ok (mkEntry l rr c d sa sb ws (r_splits_concat r)) = true) as Lim.
+  assert (forall d, entry_limits_ok (mkEntry l rr c d sa sb ws (r_splits_concat r) (r_surface_nul r)) = true) as Lim.
   { intros d. unfold entry_limits_ok. cbn [e_split_a e_split_b e_wstruct e_cost].
     repeat (apply andb_true_iff; split); apply Z.leb_le; lia. }
   destruct (r_dic_form r) as [w|].
   - destruct (parse_wid F w) as [[u n]|] eqn:Ed; [|discriminate]. inversion H; subst. split; [|reflexivity].
-    unfold entry_parsed_ok. cbn [e_left e_right]. repeat split; try lia; [apply Lim|].
+    unfold entry_parsed_ok. cbn [e_left e_right e_surface_nul].
+    split; [lia|split; [lia|split; [apply Lim|split; [|exact C0]]]].
     intros x Hin. unfold entry_refs in Hin. cbn [e_dic_form e_split_a e_split_b e_wstruct] in Hin.
     repeat (apply in_app_or in Hin as [Hin|Hin]); auto.
     destruct Hin as [<-|[]]. cbn [snd]. eapply parse_wid_range; exact Ed.
   - inversion H; subst. split; [|reflexivity].
-    unfold entry_parsed_ok. cbn [e_left e_right]. repeat split; try lia; [apply Lim|].
+    unfold entry_parsed_ok. cbn [e_left e_right e_surface_nul].
+    split; [lia|split; [lia|split; [apply Lim|split; [|exact C0]]]].
     intros x Hin. unfold entry_refs in Hin. cbn [e_dic_form e_split_a e_split_b e_wstruct] in Hin.
     repeat (apply in_app_or in Hin as [Hin|Hin]); auto. destruct Hin.
 Qed.
@@ -230,7 +233,7 @@ Lemma entry_ok_sound : forall nl nr max0 max1 e, 0 <= nl <= 32767 -> 0 <= nr <= 
   (0 <= e_left e -> e_left e < nr /\ 0 <= e_right e < nl)
   /\ forall w, In w (entry_refs e) -> 0 <= snd w < (if fst w then max1 else max0).
 Proof.
-  intros nl nr max0 max1 e Wl Wr (Pl & Pr & _ & Pn) H. destruct bfacts_parts as (Gl & Gr & _).
+  intros nl nr max0 max1 e Wl Wr (Pl & Pr & _ & Pn & _) H. destruct bfacts_parts as (Gl & Gr & _).
   unfold entry_ok in H. apply andb_true_iff in H as [H Hw]. apply andb_true_iff in H as [H Hb]. apply andb_true_iff in H as [H Ha].
   apply andb_true_iff in H as [H Hd]. apply andb_true_iff in H as [H Hi]. apply andb_true_iff in H as [Al Ar].
   split.
@@ -251,15 +254,37 @@ Proof.
     + rewrite forallb_forall in Hw. apply Hw. exact Hin.
 Qed.
 
+Lemma no_nul_indexed : forall es, (forall e, In e es -> entry_parsed_ok e) ->
+  existsb (fun e => indexed F e && e_surface_nul e) es = false.
+Proof.
+  intros es H. destruct (existsb _ es) eqn:E; [|reflexivity]. apply existsb_exists in E as [e [Hin He]].
+  apply andb_true_iff in He as [_ He]. destruct (H e Hin) as (_ & _ & _ & _ & N). congruence.
+Qed.
+
 Theorem build_never_panics : forall inp, build_with F inp <> Panic.
 Proof.
-  intros inp. destruct bfacts_parts as (_ & _ & _ & _ & _ & _ & Et & _). unfold build_with.
-  destruct (i_base inp) as [m|a b n].
-  - pose proof (conn_read_sound m) as H. destruct (conn_read F m) as [c| |]; [|discriminate|contradiction].
-    destruct (parse_records F (i_recs inp)); [|discriminate]. destruct (forallb _ _); [|discriminate].
-    destruct (existsb _ _); [discriminate|]. rewrite Et. discriminate.
-  - destruct (parse_records F (i_recs inp)); [|discriminate]. destruct (forallb _ _); [|discriminate].
-    destruct (existsb _ _); [discriminate|]. rewrite Et. discriminate.
+  intros inp. destruct bfacts_parts as (_ & _ & _ & _ & _ & _ & _ & Et & _). unfold build_with.
+  assert (forall (X : res (Z * Z * list (Z * Z) * bool * Z)), X <> Panic ->
+          match X with
+          | Ok (nl, nr, st, user, nsys) =>
+              match parse_records F (i_recs inp) with
+              | Some es =>
+                  if forallb (entry_ok F nl nr (if user then nsys else Z.of_nat (List.length es)) (if user then Z.of_nat (List.length es) else 0)) es
+                  then if existsb (indexed F) es
+                       then if existsb (fun e => indexed F e && e_surface_nul e) es then Panic else Ok (mkDict nl nr st user nsys es)
+                       else if b_empty_trie_err F then Err else Panic
+                  else Err
+              | None => Err
+              end
+          | Err => Err
+          | Panic => Panic
+          end <> Panic) as G.
+  { intros X HX. destruct X as [[[[[nl nr] st] user] nsys]| |]; [|discriminate|exfalso; apply HX; reflexivity].
+    destruct (parse_records F (i_recs inp)) as [es|] eqn:Ep; [|discriminate].
+    destruct (forallb _ es); [|discriminate]. destruct (existsb (indexed F) es); [|rewrite Et; discriminate].
+    destruct (parse_records_sound _ _ Ep) as [Pe _]. rewrite (no_nul_indexed es Pe). discriminate. }
+  apply G. destruct (i_base inp) as [m|a b n]; [|discriminate].
+  pose proof (conn_read_sound m) as H. destruct (conn_read F m) as [c| |]; [discriminate|discriminate|contradiction].
 Qed.
 
 Theorem build_valid : forall inp d, input_wf inp -> build_with F inp = Ok d ->
@@ -280,17 +305,19 @@ Proof.
       destruct C as (C1 & C2 & C3).
       destruct (parse_records F (i_recs inp)) as [es|] eqn:Ep; [|discriminate].
       destruct (forallb _ es) eqn:Ev; [|discriminate]. destruct (existsb (indexed F) es) eqn:Ex; [|destruct (b_empty_trie_err F); discriminate].
+      destruct (existsb (fun e => indexed F e && e_surface_nul e) es); [discriminate|].
       inversion H; subst. exists (c_nl c), (c_nr c), (c_stores c), false, 0, es.
       split; [exact C1|split; [exact C2|split; [exact C3|split; [discriminate|split; [first [reflexivity|exact Ep]|split; [exact Ev|split; [exact Ex|reflexivity]]]]]]].
     - destruct Wf as (Wa & Wb & Wn).
       destruct (parse_records F (i_recs inp)) as [es|] eqn:Ep; [|discriminate].
       destruct (forallb _ es) eqn:Ev; [|discriminate]. destruct (existsb (indexed F) es) eqn:Ex; [|destruct (b_empty_trie_err F); discriminate].
+      destruct (existsb (fun e => indexed F e && e_surface_nul e) es); [discriminate|].
       inversion H; subst. exists a, b, [], true, n, es.
       split; [exact Wa|split; [exact Wb|split; [intros s0 []|split; [intros _; exact Wn|split; [first [reflexivity|exact Ep]|split; [exact Ev|split; [exact Ex|reflexivity]]]]]]]. }
   destruct (parse_records_sound _ _ Ep) as [Pe Pc].
   split; [|split; [|split; [exact Wl|split; [exact Wr|split; [exact Pc|]]]]].
   - unfold dict_valid. cbn [d_entries]. apply forallb_forall. intros e Hin.
-    rewrite forallb_forall in Ev. specialize (Ev e Hin). destruct (Pe e Hin) as (Pl & Pr & Plim & Pn).
+    rewrite forallb_forall in Ev. specialize (Ev e Hin). destruct (Pe e Hin) as (Pl & Pr & Plim & Pn & _).
     destruct (entry_ok_sound _ _ _ _ e Wl Wr (Pe e Hin) Ev) as [Ids Refs].
     apply andb_true_iff. split; [apply andb_true_iff; split; [|exact Plim]|].
     + unfold entry_ids_ok. cbn [d_nl d_nr]. destruct (0 <=? e_left e) eqn:E; [|reflexivity]. apply Z.leb_le in E.
@@ -321,7 +348,7 @@ Theorem validated_ids_index_safe : forall inp d a b, input_wf inp -> build_with 
   let i := iexp_eval (b_matrix_index F) (entry_id (b_arg_left F) a) (entry_id (b_arg_right F) b) (d_nl d) (d_nr d) in
   0 <= entry_id (b_arg_left F) a < d_nl d /\ 0 <= entry_id (b_arg_right F) b < d_nr d /\ 0 <= i < d_nl d * d_nr d.
 Proof.
-  intros inp d a b Wf H Ha Hb Ia Ib. destruct bfacts_parts as (_ & _ & _ & _ & _ & _ & _ & _ & _ & _ & _ & _ & Im & EL & ER).
+  intros inp d a b Wf H Ha Hb Ia Ib. destruct bfacts_parts as (_ & _ & _ & _ & _ & _ & _ & _ & _ & _ & _ & _ & _ & Im & EL & ER).
   destruct (build_valid inp d Wf H) as (V & _). unfold dict_valid in V. rewrite forallb_forall in V.
   pose proof (V a Ha) as Va. pose proof (V b Hb) as Vb.
   apply andb_true_iff in Va as [Va _]. apply andb_true_iff in Va as [Va _].
